@@ -235,12 +235,14 @@ def dec_str(d):
         return "-"
     f = d.get("f", 0)
     s = "-" if d.get("n") else "+"
-    if f == 1:
-        return s + "Inf"
-    if f == 2:
-        return s + "sNaN"
-    if f == 3:
-        return s + "NaN"
+    if f in (1, 2, 3):
+        name = s + {1: "Inf", 2: "sNaN", 3: "NaN"}[f]
+        if d.get("c") or d.get("e"):
+            v = 0
+            for limb in reversed(d.get("c", [])):
+                v = v * 1000 + limb
+            name += "[stale %dE%d]" % (v, d.get("e", 0))
+        return name
     if f == -1:
         return "fresh"
     v = 0
